@@ -72,9 +72,8 @@ package varlink
 //@   requires [nn] c != nil && c.In != nil
 //@   ensures [flag C01 C18] result == c.In.Upgrade
 
-//@ func (*Call).IsOneway {C01 | safety: C10}
-//@   requires [nn] c != nil && c.In != nil
-//@   ensures [flag C01] result == c.In.Oneway
+// (*Call).IsOneway deliberately has no contract: no property says what a handler is told about the
+// flag; callers inside the library are judged by their own clauses, with the getter executed in place.
 
 //@ func (*Call).GetParameters {C03 C13 | safety: C10}
 //@   requires [nn] c != nil && c.In != nil
